@@ -146,8 +146,8 @@ func (d *CSVDecoder) Decode(data []byte, _ ...any) (any, error) {
 	buffers.fieldIndexes = buffers.fieldIndexes[:0]
 parseField:
 	for {
-		if data[0] != quoteChar {
-			// Non-quoted string field
+		if len(data) == 0 || data[0] != quoteChar {
+			// Non-quoted string field (an empty rest is an empty last field)
 			i := bytes.IndexByte(data, d.params.delimiter)
 			field := data
 			if i >= 0 {
@@ -176,6 +176,11 @@ parseField:
 					// Hit next quote.
 					buffers.recordBuffer = append(buffers.recordBuffer, data[:i]...)
 					data = data[i+quoteLen:]
+					if len(data) == 0 {
+						// `"` at the very end of data (end of data without newline).
+						buffers.fieldIndexes = append(buffers.fieldIndexes, len(buffers.recordBuffer))
+						break parseField
+					}
 					switch rn := data[0]; {
 					case rn == quoteChar:
 						// `""` sequence (append quote).
